@@ -385,6 +385,9 @@ def run(ctx):
         roots.append([["ctor", "out", g, U]])
     roots.append([["ctor", "graph_hidden", ROOT_GRAPHS[1], U]])
     roots.append([["ctor", "graph_hidden", ROOT_GRAPHS[6], U]])
+    # several vertices that appear only as targets (the library has to invent their rows)
+    roots.append([["ctor", "graph_hidden", [(0, 1, "a"), (0, 2, "b")], U]])
+    roots.append([["ctor", "graph_hidden", [(2, 0, "a"), (2, 1, "b")], U]])
     roots.append([["ctor", "deepcopy", ROOT_GRAPHS[2], U]])
     roots.append([["ctor", "free", ["a"], {"V": ["", "a", "A"], "L": ["a", "A"]}]])
     roots.append([["ctor", "kbmag", [["a", "b"], [[2, 0], [2, 1]]], {"V": [1, 2, 3], "L": ["a", "b"]}]])
